@@ -17,7 +17,12 @@ def in_child(fn, *args, timeout: float = 120.0):
         os.close(r)
         try:
             try:
-                res = ('ok', fn(*args))
+                from .runner import _cov_start, _cov_stop
+                cov = _cov_start()
+                try:
+                    res = ('ok', fn(*args))
+                finally:
+                    _cov_stop(cov)
             except BaseException as e:  # noqa
                 res = ('error', f'{type(e).__name__}: {e}', traceback.format_exc()[-2000:])
             data = pickle.dumps(res)
